@@ -195,6 +195,9 @@ func history(c *vk.Ctx, cs cfgSrv, p *sem.Prepared, kind string, warm, second []
 	ask := func(rq sem.Request) drive.Outcome {
 		return cs.s.Check(drive.Req{Store: p.Store, Object: rq.Object, Relation: rq.Relation, User: rq.User})
 	}
+	// half of the histories resolve usersets by plain dispatch (forced default strategy): only dispatched
+	// sub-problems are cached individually by the query cache
+	drive.ForceStore(p.Store, []drive.Mode{"", "default"}[(idx/2)%2])
 	state := map[string]*openfgav1.TupleKey{}
 	for _, t := range p.Stored {
 		state[t.GetObject()+"#"+t.GetRelation()+"@"+t.GetUser()] = t
@@ -243,7 +246,25 @@ func history(c *vk.Ctx, cs cfgSrv, p *sem.Prepared, kind string, warm, second []
 	c.Count("writes", 1)
 	time.Sleep(5 * time.Millisecond)
 	after := ref.NewCase(p.Ref, cur(), nil, extra...)
+	// Clean mode (every other history): nothing that shares a sub-problem with the judged requests is asked
+	// while the invalidation is pending — the run is triggered by requests on an object that has no tuples.
+	// The listed transitive-staleness finding needs a pending-window request that re-stamps a stale
+	// sub-problem entry; without one, a stale answer after the completed run is not explained by it.
+	clean := idx%2 == 1
+	trigger := func(try int) {
+		if clean {
+			n := warm[try%len(warm)]
+			t, _ := ref.SplitObject(n.Object)
+			ask(sem.Request{Object: t + ":zz", Relation: n.Relation, User: "user:zz"})
+			return
+		}
+		ask(warm[try%len(warm)])
+	}
 	// 3. second group while invalidation is pending (these also trigger the run)
+	if clean {
+		second = nil
+		c.Count("clean_histories(no_pending_window_requests)", 1)
+	}
 	for _, rq := range second {
 		ask(rq)
 	}
@@ -254,7 +275,7 @@ func history(c *vk.Ctx, cs cfgSrv, p *sem.Prepared, kind string, warm, second []
 			okRun = true
 			break
 		}
-		ask(warm[try%len(warm)])
+		trigger(try)
 		time.Sleep(5 * time.Millisecond)
 	}
 	if !okRun {
@@ -281,7 +302,7 @@ func history(c *vk.Ctx, cs cfgSrv, p *sem.Prepared, kind string, warm, second []
 			f := ""
 			if !stale {
 				f = sem.ClassifyCheck("C11", after, rq, kNew, o, "fast")
-			} else if strings.Contains(cs.name, "querycache") {
+			} else if strings.Contains(cs.name, "querycache") && !clean {
 				f = "C11-querycache-transitive-staleness"
 			}
 			w := sem.Witness(p, cs.name, "", rq, nil, kNew.String(), o.String())
